@@ -289,13 +289,20 @@ fn long_name(rng: &mut crate::core::Rng, pipes: bool) -> String {
 }
 
 fn random_file(rng: &mut crate::core::Rng) -> String {
-    let names = ["apple", "apples", "milk", "égg", "bay leaves", "a", "b", "x y", "", "tuna", "[x]", "a//b"];
-    let cats = ["produce", "dairy", "c", "d e", " padded ", "", "a|b", "produce"];
+    // plain names, names in other letter cases, names made of the characters other formats give a meaning to
+    let names = ["apple", "apples", "milk", "égg", "bay leaves", "a", "b", "x y", "", "tuna", "[x]", "a//b", "Apple", "MILK", "Égg", "ÉGG", "-", "--", "-a-", "[-", "-]", "[- c -]", "#x", "@y{1}", ">> k: v", "= s", "---", "\\", "ß", "SS", "ǆ", "ǅ"];
+    let cats = ["produce", "dairy", "c", "d e", " padded ", "", "a|b", "produce", "Produce", "DAIRY", "-", "-frozen-", "--", "- c -", "bio", "Bio", "#1", "[x]", "x]y", "a // b"];
     let mut s = String::new();
     let lines = rng.range(1, 12);
     for _ in 0..lines {
         match rng.below(10) {
             0..=2 => {
+                if rng.chance(1, 12) {
+                    // a header followed by a comment that contains the separators
+                    s.push_str(&format!("[{}] // milk|cheese [x] and so on", rng.pick(&cats)));
+                    s.push_str(*rng.pick(&["\n", "\r\n"]));
+                    continue;
+                }
                 s.push('[');
                 if rng.chance(1, 4) {
                     let pipes = rng.chance(1, 3);
@@ -323,7 +330,7 @@ fn random_file(rng: &mut crate::core::Rng) -> String {
                     }
                 }
                 if rng.chance(1, 8) {
-                    s.push_str(" // trailing");
+                    s.push_str(*rng.pick(&[" // trailing", " // salted|unsalted", "// [x]", " //"]));
                 }
             }
         }
